@@ -30,6 +30,7 @@ type Config struct {
 	StopAtViolation       bool
 	MaxViolationsPerLabel int
 	Solver                string
+	StrOrder              string // "rank" (default: abstract total order) or "lex" (str.<)
 }
 
 func defaultConfig() *Config {
